@@ -386,6 +386,9 @@ func (j *udpJob) setRemoteRaw(sa []byte) bool {
 			return false
 		}
 		port := uint16(sa[2])<<8 | uint16(sa[3])
+		if port == 0 {
+			return false // see udpSourcePortUsable
+		}
 		var a4 [4]byte
 		copy(a4[:], sa[4:8])
 		j.setRemote(netip.AddrPortFrom(netip.AddrFrom4(a4), port))
@@ -395,6 +398,9 @@ func (j *udpJob) setRemoteRaw(sa []byte) bool {
 			return false
 		}
 		port := uint16(sa[2])<<8 | uint16(sa[3])
+		if port == 0 {
+			return false // see udpSourcePortUsable
+		}
 		var a16 [16]byte
 		copy(a16[:], sa[8:24])
 		j.setRemote(netip.AddrPortFrom(netip.AddrFrom16(a16), port))
